@@ -321,4 +321,59 @@ def createClient (env : Env) (cs : ClientState) : Outcome (ClientState × Store)
             .ok (cs, { recents := [⟨cs.head.rev, cs.head.number, signer⟩], pending := pending,
                        cons := [⟨cs.head.rev, cs.head.number, cs.head.time, cs.head.root⟩] })
 
+/-! ### several clients in one process, discarded executions
+
+Verification is a function of (committed client state, header) only: there is no process-wide state (no
+signature cache, no memoised snapshot). A world is a family of clients; an operation addresses one client;
+`dry` runs an update and throws its effects away (a failed multi-message transaction, a simulation, a dropped
+cache context). -/
+
+abbrev World := Nat → Option (ClientState × Store)
+
+def World.empty : World := fun _ => none
+
+def World.set (w : World) (i : Nat) (s : ClientState × Store) : World := fun j => if j = i then some s else w j
+
+inductive Op where
+  | create (i : Nat) (cs0 : ClientState)
+  | update (i : Nat) (bt : Nat) (h : Header)
+  | dry (i : Nat) (bt : Nat) (h : Header)
+
+/-- verdict of the real call (`ok` / `err` / `panic` as seen by the caller) -/
+def verdict {α} : Outcome α → Outcome Unit
+  | .ok _ => .ok ()
+  | .err e => .err e
+  | .panic p => .panic p
+
+/-- one operation: the new world and the verdict the caller sees -/
+def applyOp (env : Env) (w : World) : Op → World × Outcome Unit
+  | .create i cs0 =>
+    match w i with
+    | some _ => (w, .err "client-exists")
+    | none =>
+      match createClient env cs0 with
+      | .ok s => (w.set i s, .ok ())
+      | .err e => (w, .err e)
+      | .panic p => (w, .panic p)
+  | .update i bt h =>
+    match w i with
+    | none => (w, .err "client-not-found")
+    | some (cs, st) =>
+      match updateClient Fix.fixed env cs st bt h with
+      | .ok s => (w.set i s, .ok ())
+      | .err e => (w, .err e)
+      | .panic p => (w, .panic p)
+  | .dry i bt h =>
+    match w i with
+    | none => (w, .err "client-not-found")
+    | some (cs, st) => (w, verdict (updateClient Fix.fixed env cs st bt h))
+
+def runOps (env : Env) (w : World) (ops : List Op) : World := ops.foldl (fun w op => (applyOp env w op).1) w
+
+/-- does the operation address the committed state of client `c`? (`dry` addresses nobody's) -/
+def Op.touches (c : Nat) : Op → Bool
+  | .create i _ => i == c
+  | .update i _ _ => i == c
+  | .dry _ _ _ => false
+
 end TM.Bsc
